@@ -194,11 +194,11 @@ impl<'a, D: DependencyProvider> Encoder<'a, D> {
 
         // Add clauses for externally excluded candidates.
         for &(solvable, reason) in &package_candidates.excluded {
-            let variable = self.add_exclusion_clause(solvable.into(), reason);
-            debug_assert!(
-                self.state.decision_tracker.assigned_value(variable) != Some(true),
-                "it cannot be possible that the excluded candidate is already uninstallable"
-            )
+            // Note that the excluded candidate may already have been selected (e.g. a soft
+            // requirement that was installed before the candidates of its package were
+            // requested). `add_exclusion_clause` reports the clause as conflicting in that
+            // case, which makes the solver backtrack.
+            self.add_exclusion_clause(solvable.into(), reason);
         }
     }
 
